@@ -62,8 +62,8 @@ type Fn struct {
 	tsClause    map[*ast.CaseClause]*ast.TypeSwitchStmt
 	preOf       map[ast.Node]nodeRef // node whose call was expanded -> where its evaluation starts
 	blockCalls  map[*cfg.Block][]*ast.CallExpr
-	liveIn    map[int32]map[types.Object]bool
-	locals    map[types.Object]bool
+	liveIn      map[int32]map[types.Object]bool
+	locals      map[types.Object]bool
 	// PostFacts: formulas that hold right after the given CFG node (facts
 	// established by a rule outside the engine, e.g. an allocation summary)
 	PostFacts map[ast.Node]*Formula
@@ -679,6 +679,7 @@ type Analysis struct {
 	cur []*InlSite
 	// self-referential assignment being evaluated disjunct by disjunct, and the old value's equal term
 	inSelfSplit bool
+	cut         map[int32]bool        // blocks the analysis does not enter (FromCut)
 	postFacts   map[ast.Node]*Formula // the function's PostFacts and KeepDead when the analysis was made (queries re-step lazily)
 	fnKeepDead  bool
 	selfPartner *Term
@@ -734,6 +735,24 @@ func (f *Fn) FromUntil(n ast.Node, st State, stops ...ast.Node) *Analysis {
 	for _, s := range stops {
 		if _, _, root, ok := f.Locate(s); ok {
 			a.StopAt[root] = true
+		}
+	}
+	a.run(b, idx, st)
+	return a
+}
+
+// FromCut runs forward from just before n and does not enter the given blocks: with a loop's head cut, the facts
+// are those of the one iteration the analysis was started in (an assumption made at the start is not diluted by
+// later iterations).
+func (f *Fn) FromCut(n ast.Node, st State, cut ...*cfg.Block) *Analysis {
+	b, idx, _, ok := f.locateStart(n)
+	a := &Analysis{Fn: f, postFacts: f.PostFacts, fnKeepDead: f.KeepDead, In: map[int32]State{}, out: map[int32][]State{}, visits: map[int32]int{}, cut: map[int32]bool{}}
+	if !ok {
+		return a
+	}
+	for _, c := range cut {
+		if c != nil {
+			a.cut[c.Index] = true
 		}
 	}
 	a.run(b, idx, st)
@@ -826,6 +845,9 @@ func (a *Analysis) run(start *cfg.Block, idx int, init State) {
 		b := work[0]
 		work = work[1:]
 		inWork[b.Index] = false
+		if a.cut[b.Index] {
+			continue
+		}
 		in := Unreachable()
 		inEntry, inBack := Unreachable(), Unreachable()
 		rs, isRange := b.Stmt.(*ast.RangeStmt)
